@@ -152,20 +152,32 @@ structure Core where
   m : Mon := {}
   deriving DecidableEq, Repr, Inhabited, Hashable
 
-/-- writer: the core state and the commands emitted during this call (newest first) -/
+/-- result of one call into the stream: the new core state, the commands emitted (oldest first), and whether an
+    exception escaped.  Every function below is written as a decision tree whose leaves are plain record updates
+    of the incoming state (no state is threaded through intermediate `if`s), so that the projection `.c` of a
+    result is again a decision tree over simple updates. -/
 structure W where
   c : Core
   out : List Out := []
   crashed : Bool := false      -- an exception escaped from this call
   deriving Repr, Inhabited
 
+def mk (c : Core) (out : List Out) : W := { c, out }
+/-- an exception escapes: state as it is -/
+def crash (c : Core) : W := { c, out := [.crash], crashed := true }
+
 namespace W
-def emit (w : W) (o : Out) : W := { w with c := { w.c with m := mon w.c.m o }, out := o :: w.out }
-def upd (w : W) (f : Core → Core) : W := { w with c := f w.c }
-def pause (w : W) (k : K) : W := w.upd fun c => { c with paused := some k }
-def fire (w : W) (h : Hook) (k : K) : W := (w.emit (.hook h)).pause k
-def crash (w : W) : W := { w.emit .crash with crashed := true }
+/-- commands emitted before the rest -/
+def pre (o : List Out) (w : W) : W := { w with out := o ++ w.out }
+/-- an exception that escapes from `__continue` (`q`) leaves the rest of `_paused_event_queue` behind -/
+def fin (q : Bool) (w : W) : W := { w with c := { w.c with stale := w.c.stale || (q && w.crashed) } }
 end W
+
+def outIf (b : Bool) (o : Out) : List Out := if b then [o] else []
+
+/-- the state after firing hook `h` and suspending at `k` -/
+def fireC (c : Core) (h : Hook) (k : K) : Core := { c with m := mon c.m (.hook h), paused := some k }
+def fire (c : Core) (h : Hook) (k : K) : W := mk (fireC c h k) [.hook h]
 
 /-- the hook a suspension point waits for (none: a connection command) -/
 def K.hook : K → Option Hook
@@ -179,8 +191,7 @@ def K.hook : K → Option Hook
   | .responseHook _ => some .response
   | .killedErr => some .error
   | .peErr _ _ => some .error
-  | .cbsHdr true => some .requestheaders
-  | .cbsHdr false => some .responseheaders
+  | .cbsHdr request => some (if request then .requestheaders else .responseheaders)
   | .cbsErr _ => some .error
   | .invHdr => some .requestheaders
   | .invErr _ => some .error
@@ -211,136 +222,119 @@ def AEv.isDone : AEv → Bool
 -- ------------------------------------------------------------------------------------------------
 -- helpers shared by several states
 
-/-- tail of check_killed once it decided "killed": SendHttp(ResponseProtocolError kill), live=False, both errored -/
-def killFinish (w : W) : W :=
-  (w.emit (.send true .sx)).upd fun c => { c with live := false, cs := .errored, ss := .errored }
+/-- check_killed decides "killed": by us (`flow.error` is the kill message) or by the remote
+    (`peek`: a RequestProtocolError waits in `_paused_event_queue`) -/
+def killedNow (c : Core) (peek : Bool) : Bool := c.err == .killed || peek
+/-- `if killed_by_remote and not flow.error: flow.error = Error(killed_by_remote)` -/
+def errPeek (c : Core) (peek : Bool) : ErrK := if peek && c.err == .none then .other else c.err
 
-/-- `check_killed(emit_error_hook)`; `peek`: a RequestProtocolError waits in `_paused_event_queue`.
-    `none`: not killed, the caller continues; `some w`: killed, the caller returns. -/
-def checkKilled (w : W) (emitHook : Bool) (peek : Bool) : Option W :=
-  let byUs := w.c.err == .killed
-  let w := if peek && w.c.err == .none then w.upd fun c => { c with err := .other } else w
-  if byUs || peek then
-    if emitHook then some (w.fire .error .killedErr) else some (killFinish w)
-  else none
+/-- tail of check_killed once it decided "killed": live=False, both states errored (+ SendHttp kill) -/
+def killFinishC (c : Core) (peek : Bool) : Core :=
+  { c with err := errPeek c peek, live := false, cs := .errored, ss := .errored }
+/-- check_killed(True), killed: the error hook is fired first -/
+def killedFire (c : Core) (peek : Bool) : W := fire { c with err := errPeek c peek } .error .killedErr
+/-- check_killed(False), killed -/
+def killedSilent (c : Core) (peek : Bool) : W := mk (killFinishC c peek) [.send true .sx]
 
-def peRet (w : W) : Ret → W
-  | .top => w
-  | .streamHdr => w.upd fun c => { c with cs := .errored, ss := .waitHdr }
-  | .streamLate => w.upd fun c => { c with cs := .errored }
+def peRetC (c : Core) : Ret → Core
+  | .top => c
+  | .streamHdr => { c with cs := .errored, ss := .waitHdr }
+  | .streamLate => { c with cs := .errored }
 
 /-- handle_protocol_error after the (optional) error hook -/
-def peAfter (w : W) (isResp : Bool) (ret : Ret) (peek : Bool) : W :=
-  match checkKilled w false peek with
-  | some w' => peRet w' ret
-  | none =>
-    let w := if isResp then
-        let w := if w.c.cs != .errored then w.emit (.send true .sx) else w
-        w.upd fun c => { c with ss := .errored }
-      else w
-    let w := w.upd fun c => { c with live := false }
-    let w := (w.emit .drop).upd fun c => { c with dropped := true }
-    peRet w ret
+def peAfter (c : Core) (isResp : Bool) (ret : Ret) (peek : Bool) : W :=
+  if killedNow c peek then mk (peRetC (killFinishC c peek) ret) [.send true .sx]
+  else if isResp then
+    mk (peRetC { c with ss := .errored, live := false, dropped := true } ret)
+       (outIf (c.cs != .errored) (.send true .sx) ++ [.drop])
+  else mk (peRetC { c with live := false, dropped := true } ret) [.drop]
 
 /-- handle_protocol_error -/
-def handlePE (w : W) (isResp : Bool) (ret : Ret) (peek : Bool) : W :=
-  if !w.c.hasFlow then w.crash            -- AttributeError: no flow yet
+def handlePE (c : Core) (isResp : Bool) (ret : Ret) (peek : Bool) : W :=
+  if !c.hasFlow then crash c            -- AttributeError: no flow yet
   else
-    let c := w.c
     let upstream := !isResp && (c.cs == .stream || c.cs == .done) && !(c.ss == .done || c.ss == .errored)
     let need := !(c.cs == .errored || c.ss == .done || c.ss == .errored)
-    let w := if upstream then (w.emit (.send false .rx)).upd fun c => { c with ss := .errored } else w
-    let w := if !isResp then w.upd fun c => { c with cs := .errored } else w
-    if need then (w.upd fun c => { c with err := .other }).fire .error (.peErr isResp ret)
-    else peAfter w isResp ret peek
+    -- a client error always marks the client side errored; if we already talk upstream the server side too
+    if isResp then
+      if need then fire { c with err := .other } .error (.peErr true ret)
+      else peAfter c true ret peek
+    else if upstream then
+      if need then (fire { c with cs := .errored, ss := .errored, err := .other } .error (.peErr false ret)).pre [.send false .rx]
+      else (peAfter { c with cs := .errored, ss := .errored } false ret peek).pre [.send false .rx]
+    else
+      if need then fire { c with cs := .errored, err := .other } .error (.peErr false ret)
+      else peAfter { c with cs := .errored } false ret peek
 
-def flowDone (w : W) : W :=
-  let w := if !w.c.websocket then w.upd fun c => { c with live := false } else w
-  if w.c.respKind == .ws101 || w.c.respKind == .up101 then
-    -- status 101: websocket / raw tcp child layer, the stream becomes a pipe
-    (w.upd fun c => { c with pt := true }).emit (.send true .se)
-  else
-    ((w.emit .drop).upd fun c => { c with dropped := true }).emit (.send true .se)
+def is101 (c : Core) : Bool := c.respKind == .ws101 || c.respKind == .up101
 
-def sendResponse (w : W) (alreadyStreamed : Bool) : W :=
-  let ws := w.c.respKind == .ws101 && w.c.reqWs
-  (w.upd fun c => { c with websocket := c.websocket || ws }).fire .response (.responseHook alreadyStreamed)
+def sendResponse (c : Core) (alreadyStreamed : Bool) : W :=
+  fire { c with websocket := c.websocket || (c.respKind == .ws101 && c.reqWs) } .response (.responseHook alreadyStreamed)
 
-def startRequestStream (w : W) (late : Bool) : W :=
-  if w.c.hasResp then w.crash             -- NotImplementedError
-  else (w.emit .getConn).pause (.streamConn late)
+def startRequestStream (c : Core) (late : Bool) : W :=
+  if c.hasResp then crash c             -- NotImplementedError
+  else mk { c with paused := some (.streamConn late) } [.getConn]
 
-def cbsErrFire (w : W) (request : Bool) : W :=
-  (w.upd fun c => { c with err := .other }).fire .error (.cbsErr request)
+def cbsErrFire (c : Core) (request : Bool) : W := fire { c with err := .other } .error (.cbsErr request)
 
-def connectFinish (w : W) : W :=
-  let w := if !w.c.hasResp then w.upd fun c => { c with hasResp := true, connect2xx := true, respBody := false } else w
-  if w.c.connect2xx then w.fire .connected .connectedHook else w.fire .connectError .connectErrHook
+def connectFinish (c : Core) : W :=
+  let ok := c.connect2xx || !c.hasResp
+  if ok then fire { c with hasResp := true, connect2xx := true, respBody := c.respBody && c.hasResp } .connected .connectedHook
+  else fire { c with hasResp := true, connect2xx := false, respBody := c.respBody && c.hasResp } .connectError .connectErrHook
 
-def connectSends (w : W) : W :=
-  let w := w.emit (.send true .sh)
-  let w := if w.c.respBody then w.emit (.send true .sd) else w
-  w.emit (.send true .se)
+def connectSends (c : Core) : List Out :=
+  [.send true .sh] ++ outIf c.respBody (.send true .sd) ++ [.send true .se]
 
 -- ------------------------------------------------------------------------------------------------
 -- an event handled by `_handle_event` (layer not paused)
 
-def onReqHeaders (w : W) (e : Bool) (kind : ReqKind) (ws : Bool) (v : Verdict) : W :=
-  let w := w.upd fun c => { c with hasFlow := true, live := true, reqWs := ws, isConnect := kind == .connect }
-  -- check_invalid(True)
-  if kind == .invalid then (w.upd fun c => { c with err := .other }).fire .requestheaders .invHdr
-  else if kind == .connect then
-    (w.upd fun c => { c with cs := .done }).fire .connect .connectHook
-  else if kind == .nohost then
-    (w.emit (.send true .sx)).upd fun c => { c with cs := .errored }
-  else
+def onReqHeaders (c : Core) (e : Bool) (kind : ReqKind) (ws : Bool) (v : Verdict) : W :=
+  match kind with
+  | .invalid =>    -- check_invalid(True)
+    fire { c with hasFlow := true, live := true, reqWs := ws, isConnect := false, err := .other } .requestheaders .invHdr
+  | .connect =>
+    fire { c with hasFlow := true, live := true, reqWs := ws, isConnect := true, cs := .done } .connect .connectHook
+  | .nohost =>
+    mk { c with hasFlow := true, live := true, reqWs := ws, isConnect := false, cs := .errored } [.send true .sx]
+  | .norm =>
     -- check_body_size(True), early case, only `if not event.end_stream`
-    let v := if e then .ok else v
-    match v with
-    | .tooLarge => w.fire .requestheaders (.cbsHdr true)
-    | .stream => (w.upd fun c => { c with reqStream := true }).fire .requestheaders (.reqHeadersHook e)
-    | .ok => w.fire .requestheaders (.reqHeadersHook e)
-
-def clientEvent (w : W) (ev : AEv) (peek : Bool) : W :=
-  match w.c.cs, ev with
-  | .waitHdr, .reqHeaders e kind ws v => onReqHeaders w e kind ws v
-  | .consume, .reqData v =>
-    match v with
-    | .ok => w
-    | .tooLarge => cbsErrFire w true
-    | .stream => startRequestStream (w.upd fun c => { c with reqStream := true }) true
-  | .consume, .reqEOM ne =>
-    (w.upd fun c => { c with cs := .done, reqBody := ne }).fire .request .requestHook
-  | .stream, .reqData _ => w.emit (.send false .rd)
-  | .stream, .reqEOM _ => w.fire .request .requestHookStream
-  | .errored, _ => w
-  | _, _ => let _ := peek; w.crash            -- @expect(...) AssertionError
-
-def serverEvent (w : W) (ev : AEv) : W :=
-  match w.c.ss, ev with
-  | .waitHdr, .respHeaders e kind v =>
-    let w := w.upd fun c => { c with hasResp := true, respKind := kind, respStream := false }
-    let v := if e then .ok else v
-    match v with
-    | .tooLarge => w.fire .responseheaders (.cbsHdr false)
-    | _ =>
-      let w := if v == .stream then w.upd fun c => { c with respStream := true } else w
-      if kind == .invalid then
-        ((w.upd fun c => { c with err := .other }).emit .closeServer).fire .error (.invErr false)
-      else w.fire .responseheaders (.respHeadersHook e)
-  | .consume, .respData v =>
-    match v with
-    | .ok => w
-    | .tooLarge => cbsErrFire w false
+    match (if e then Verdict.ok else v) with
+    | .tooLarge => fire { c with hasFlow := true, live := true, reqWs := ws, isConnect := false } .requestheaders (.cbsHdr true)
     | .stream =>
-      -- start_response_stream, then the buffered data is re-dispatched as ResponseData
-      let w := (w.upd fun c => { c with respStream := true }).emit (.send true .sh)
-      (w.upd fun c => { c with ss := .stream }).emit (.send true .sd)
-  | .consume, .respEOM ne => sendResponse (w.upd fun c => { c with respBody := ne }) false
-  | .stream, .respData _ => w.emit (.send true .sd)
-  | .stream, .respEOM _ => sendResponse w true
-  | .errored, _ => w
-  | _, _ => w.crash
+      fire { c with hasFlow := true, live := true, reqWs := ws, isConnect := false, reqStream := true } .requestheaders (.reqHeadersHook e)
+    | .ok => fire { c with hasFlow := true, live := true, reqWs := ws, isConnect := false } .requestheaders (.reqHeadersHook e)
+
+def clientEvent (c : Core) (ev : AEv) : W :=
+  match c.cs, ev with
+  | .waitHdr, .reqHeaders e kind ws v => onReqHeaders c e kind ws v
+  | .consume, .reqData .ok => mk c []
+  | .consume, .reqData .tooLarge => cbsErrFire c true
+  | .consume, .reqData .stream => startRequestStream { c with reqStream := true } true
+  | .consume, .reqEOM ne => fire { c with cs := .done, reqBody := ne } .request .requestHook
+  | .stream, .reqData _ => mk c [.send false .rd]
+  | .stream, .reqEOM _ => fire c .request .requestHookStream
+  | .errored, _ => mk c []
+  | _, _ => crash c                     -- @expect(...) AssertionError
+
+def serverEvent (c : Core) (ev : AEv) : W :=
+  match c.ss, ev with
+  | .waitHdr, .respHeaders e kind v =>
+    match (if e then Verdict.ok else v) with
+    | .tooLarge => fire { c with hasResp := true, respKind := kind, respStream := false } .responseheaders (.cbsHdr false)
+    | v' =>
+      if kind == .invalid then   -- check_invalid(False)
+        (fire { c with hasResp := true, respKind := kind, respStream := v' == .stream, err := .other } .error (.invErr false)).pre [.closeServer]
+      else fire { c with hasResp := true, respKind := kind, respStream := v' == .stream } .responseheaders (.respHeadersHook e)
+  | .consume, .respData .ok => mk c []
+  | .consume, .respData .tooLarge => cbsErrFire c false
+  | .consume, .respData .stream =>
+    -- start_response_stream, then the buffered data is re-dispatched as ResponseData
+    mk { c with respStream := true, ss := .stream } [.send true .sh, .send true .sd]
+  | .consume, .respEOM ne => sendResponse { c with respBody := ne } false
+  | .stream, .respData _ => mk c [.send true .sd]
+  | .stream, .respEOM _ => sendResponse c true
+  | .errored, _ => mk c []
+  | _, _ => crash c
 
 /-- the event grammar, checked when an HttpEvent is handled.  Events are handled in arrival order (events queued
     before a DropStream are still replayed after it, so `dropped` restricts nothing) — unless an exception escaped
@@ -357,122 +351,103 @@ def badCore : Core := { bad := true, cs := .errored, ss := .errored }
 
 /-- an HttpEvent handled by `_handle_event`; `queued`: it is replayed from `_paused_event_queue` by `__continue` -/
 def procEv (c : Core) (ev : AEv) (peek : Bool) (queued : Bool) : W :=
-  if c.bad then { c := c }
-  else if c.pt then { c := c }
-  else if !grammarOk c ev then { c := badCore }
+  if c.bad then mk c []
+  else if c.pt then mk c []
+  else if !grammarOk c ev then mk badCore []
   else
-    let queued := queued && c.draining
-    let w : W := { c := { c with draining := queued } }
-    let w := match ev with
-      | .reqErr => (handlePE w false .top peek).upd fun c => { c with procReqErr := true }
-      | .respErr => handlePE w true .top peek
-      | .reqHeaders .. => (clientEvent w ev peek).upd fun c => { c with seenReqHdr := true }
-      | .reqData _ | .reqEOM _ => clientEvent w ev peek
-      | _ => serverEvent w ev
-    -- an exception that escapes from `__continue` leaves the rest of `_paused_event_queue` behind
-    if queued && w.crashed then w.upd fun c => { c with stale := true } else w
+    let q := queued && c.draining
+    W.fin q <| match ev with
+      | .reqErr => handlePE { c with draining := q, procReqErr := true } false .top peek
+      | .respErr => handlePE { c with draining := q } true .top peek
+      | .reqHeaders .. => clientEvent { c with draining := q, seenReqHdr := true } ev
+      | .reqData _ | .reqEOM _ => clientEvent { c with draining := q } ev
+      | _ => serverEvent { c with draining := q } ev
 
 -- ------------------------------------------------------------------------------------------------
 -- a completion resumes the generator
 
 def applyAction (c : Core) (h : Hook) : Action → Core
   | .pass => c
-  | .kill => if c.live && c.err != .killed then { c with err := .killed, live := false } else c
+  | .kill =>   -- `if flow.killable: flow.kill()`
+    { c with err := if c.live && c.err != .killed then .killed else c.err, live := c.live && c.err == .killed }
   | .resp => { c with hasResp := true, respKind := .norm, respStream := false, respBody := true, connect2xx := true }
   | .stream =>
-    if h == .requestheaders || h == .request then { c with reqStream := true }
-    else if c.hasResp then { c with respStream := true } else c
+    { c with reqStream := c.reqStream || (h == .requestheaders || h == .request),
+             respStream := c.respStream || (!(h == .requestheaders || h == .request) && c.hasResp) }
+
+/-- flow_done, entered with both sides done -/
+def flowDone (c : Core) (before : List Out) : W :=
+  if is101 c then
+    -- status 101: websocket / raw tcp child layer, the stream becomes a pipe
+    mk { c with live := c.live && c.websocket, pt := true } (before ++ [.send true .se])
+  else mk { c with live := c.live && c.websocket, dropped := true } (before ++ [.drop, .send true .se])
 
 /-- continuation after the blocking command of suspension point `k` completed (`ok`: connection result) -/
-def resume (w : W) (k : K) (ok : Bool) (peek : Bool) : W :=
+def resume (c : Core) (k : K) (ok : Bool) (peek : Bool) : W :=
   match k with
   | .reqHeadersHook e =>
-    match checkKilled w true peek with
-    | some w' => w'
-    | none =>
-      if w.c.reqStream && !e then startRequestStream w false
-      else w.upd fun c => { c with cs := .consume, ss := .waitHdr }
+    if killedNow c peek then killedFire c peek
+    else if c.reqStream && !e then startRequestStream c false
+    else mk { c with cs := .consume, ss := .waitHdr } []
   | .streamConn late =>
     if ok then
-      let w := (w.upd fun c => { c with attached := true }).emit (.send false .rh)
-      let w := (w.emit .streamStart).upd fun c => { c with cs := .stream }
-      if late then w.emit (.send false .rd) else w.upd fun c => { c with ss := .waitHdr }
-    else handlePE w true (if late then .streamLate else .streamHdr) peek
+      if late then mk { c with attached := true, cs := .stream, m := mon c.m .streamStart } [.send false .rh, .streamStart, .send false .rd]
+      else mk { c with attached := true, cs := .stream, ss := .waitHdr, m := mon c.m .streamStart } [.send false .rh, .streamStart]
+    else handlePE c true (if late then .streamLate else .streamHdr) peek
   | .requestHookStream =>
-    let w := (w.upd fun c => { c with cs := .done }).emit (.send false .re)
-    if w.c.ss == .done then flowDone w else w
+    if c.ss == .done then flowDone { c with cs := .done } [.send false .re]
+    else mk { c with cs := .done } [.send false .re]
   | .requestHook =>
-    match checkKilled w true peek with
-    | some w' => w'
-    | none =>
-      if w.c.hasResp then w.fire .responseheaders .respHeadersEmul
-      else (w.emit .getConn).pause .conn
+    if killedNow c peek then killedFire c peek
+    else if c.hasResp then fire c .responseheaders .respHeadersEmul
+    else mk { c with paused := some .conn } [.getConn]
   | .respHeadersEmul =>
-    match checkKilled w true peek with
-    | some w' => w'
-    | none => sendResponse w false
+    if killedNow c peek then killedFire c peek
+    else sendResponse c false
   | .conn =>
-    if ok then
-      let w := (w.upd fun c => { c with attached := true }).emit (.send false .rh)
-      let w := if w.c.reqBody then w.emit (.send false .rd) else w
-      w.emit (.send false .re)
-    else handlePE w true .top peek
+    if ok then mk { c with attached := true } ([.send false .rh] ++ outIf c.reqBody (.send false .rd) ++ [.send false .re])
+    else handlePE c true .top peek
   | .respHeadersHook e =>
-    match checkKilled w true peek with
-    | some w' => w'
-    | none =>
-      if w.c.respStream && !e then (w.emit (.send true .sh)).upd fun c => { c with ss := .stream }
-      else w.upd fun c => { c with ss := .consume }
+    if killedNow c peek then killedFire c peek
+    else if c.respStream && !e then mk { c with ss := .stream } [.send true .sh]
+    else mk { c with ss := .consume } []
   | .responseHook already =>
-    let w := w.upd fun c => { c with ss := .done }
-    match checkKilled w false peek with
-    | some w' => w'
-    | none =>
-      let w := if !already then
-          let w := w.emit (.send true .sh)
-          if w.c.respBody then w.emit (.send true .sd) else w
-        else w
-      if w.c.cs == .done then flowDone w else w
-  | .killedErr => killFinish w
-  | .peErr isResp ret => peAfter w isResp ret peek
-  | .cbsHdr request => cbsErrFire w request
-  | .cbsErr request =>
-    let w := (w.emit (.send true .sx)).upd fun c => { c with cs := .errored }
-    let w := if !request then (w.emit (.send false .rx)).upd fun c => { c with ss := .errored } else w
-    w.upd fun c => { c with live := false }
-  | .invHdr => w.fire .error (.invErr true)
-  | .invErr _ =>
-    (w.emit (.send true .sx)).upd fun c => { c with live := false, cs := .errored, ss := .errored }
+    if killedNow c peek then killedSilent { c with ss := .done } peek
+    else if c.cs == .done then
+      flowDone { c with ss := .done } (outIf (!already) (.send true .sh) ++ outIf (!already && c.respBody) (.send true .sd))
+    else mk { c with ss := .done } (outIf (!already) (.send true .sh) ++ outIf (!already && c.respBody) (.send true .sd))
+  | .killedErr => killedSilent c false
+  | .peErr isResp ret => peAfter c isResp ret peek
+  | .cbsHdr request => cbsErrFire c request
+  | .cbsErr true => mk { c with cs := .errored, live := false } [.send true .sx]
+  | .cbsErr false => mk { c with cs := .errored, ss := .errored, live := false } [.send true .sx, .send false .rx]
+  | .invHdr => fire c .error (.invErr true)
+  | .invErr _ => mk { c with live := false, cs := .errored, ss := .errored } [.send true .sx]
   | .connectHook =>
-    match checkKilled w false peek with
-    | some w' => w'
-    | none =>
-      if !w.c.hasResp then (w.emit .openConn).pause .connectOpen      -- regular mode, connection_strategy eager
-      else connectFinish w
+    if killedNow c peek then killedSilent c peek
+    else if !c.hasResp then mk { c with paused := some .connectOpen } [.openConn]      -- regular mode, connection_strategy eager
+    else connectFinish c
   | .connectOpen =>
-    if ok then connectFinish w
-    else connectFinish (w.upd fun c => { c with hasResp := true, connect2xx := false, respBody := true })
-  | .connectedHook => connectSends (w.upd fun c => { c with pt := true })
-  | .connectErrHook => connectSends (w.upd fun c => { c with cs := .errored, live := false })
-
-/-- an exception that escapes from `__continue` leaves the rest of `_paused_event_queue` behind -/
-def markStale (w : W) : W := if w.crashed then w.upd fun c => { c with stale := true } else w
+    if ok then connectFinish c
+    else connectFinish { c with hasResp := true, connect2xx := false, respBody := true }
+  | .connectedHook => mk { c with pt := true } (connectSends c)
+  | .connectErrHook => mk { c with cs := .errored, live := false } (connectSends c)
 
 /-- a CommandCompleted event for the command the layer is paused on -/
 def procDone (c : Core) (ev : AEv) (peek : Bool) : W :=
-  if c.bad then { c := c }
+  if c.bad then mk c []
   else match c.paused with
-  | none => { c := badCore }
+  | none => mk badCore []
   | some k =>
-    let w : W := { c := { c with paused := none, draining := true } }
-    markStale <| match ev, k.hook with
+    match ev, k.hook with
     | .hookDone h a, some h' =>
-      if h == h' then resume (w.upd fun c => applyAction c h a) k true peek else { c := badCore }
+      if h == h' then W.fin true (resume (applyAction { c with paused := none, draining := true } h a) k true peek)
+      else mk badCore []
     | .connDone ok, none =>
-      if k == .connectOpen then { c := badCore } else resume w k ok peek
+      if k == .connectOpen then mk badCore [] else W.fin true (resume { c with paused := none, draining := true } k ok peek)
     | .openDone ok, none =>
-      if k == .connectOpen then resume w k ok peek else { c := badCore }
-    | _, _ => { c := badCore }
+      if k == .connectOpen then W.fin true (resume { c with paused := none, draining := true } k ok peek) else mk badCore []
+    | _, _ => mk badCore []
 
 -- ------------------------------------------------------------------------------------------------
 -- concrete layer: sizes and the paused-event queue
@@ -507,7 +482,7 @@ structure St where
   respBuf : Nat := 0
   queue : List Ev := []   -- _paused_event_queue
   crashed : Bool := false -- the last call of _handle_event raised
-  outs : List Out := []   -- every command emitted so far, newest first
+  outs : List Out := []   -- every command emitted so far, oldest first
   deriving Repr, Inhabited
 
 /-- check_body_size steps 1–3 on an expected size (0: unknown / none) -/
@@ -553,7 +528,7 @@ def handleNow (s : St) (ev : Ev) (queued : Bool) : St :=
   let a := abstractEv s ev
   let w := if ev.isDone then procDone s.core a peek else procEv s.core a peek queued
   let (rb, sb) := bufAfter s ev
-  { s with core := w.c, crashed := w.crashed, reqBuf := rb, respBuf := sb, outs := w.out ++ s.outs }
+  { s with core := w.c, crashed := w.crashed, reqBuf := rb, respBuf := sb, outs := s.outs ++ w.out }
 
 /-- `__continue`'s loop: replay queued events until paused again (or an exception escaped) -/
 def drain : Nat → St → St
@@ -577,8 +552,8 @@ def init (limit thresh : Nat) : St := { limit, thresh }
 
 def run (limit thresh : Nat) (evs : List Ev) : St := evs.foldl step (init limit thresh)
 
-/-- the hooks fired so far, oldest first -/
-def St.trace (s : St) : List Out := s.outs.reverse
+/-- the commands emitted so far, oldest first -/
+def St.trace (s : St) : List Out := s.outs
 
 /-- the environment has closed the client side of this stream and nothing is pending -/
 def St.settled (s : St) : Bool :=
